@@ -16,6 +16,8 @@ for rid in sorted(engine.RULES):
     if args and rid not in args:
         continue
     ru = engine.RULES[rid]
+    if cfg not in ru.configs:
+        continue
     try:
         res = ru.fn(ctx.prog(cfg))
     except Exception as e:
